@@ -42,7 +42,7 @@ def runCalls (σ : Vd) (calls : List String) : Vd × List String :=
 def renderTrace (σ : Vd) : String :=
   let w := String.intercalate "," (σ.port.written.reverse.map hexStr)
   let l := String.intercalate "," (σ.lines.reverse.map (fun l => hexStr l.tx ++ ":" ++ hexStr l.rx))
-  s!"W={w} R={σ.port.nR} F={σ.port.nF} L={l}"
+  s!"W={w} R={σ.port.nE} F={σ.port.nF} L={l}"
 
 def scenario (toks : List String) : String :=
   match toks with
